@@ -3,7 +3,8 @@
 From Coq Require Import List Arith Reals Lra Lia Bool ZArith Psatz.
 From Coquelicot Require Import Coquelicot.
 From SplipyModel Require Import Spec.BSpline Model.Num Model.BasisDef Model.Tensor Model.Obj Model.Orient Model.KnotInsert
-  Model.Reparam Model.Handed Proofs.OrientProofs.
+  Model.Reparam Model.Handed Proofs.OrientProofs Proofs.ObjEval Proofs.InsertEndToEnd
+  Proofs.SwapEndToEnd Proofs.ReverseEndToEnd Proofs.DefaultObjProofs.
 Import ListNotations.
 Open Scope R_scope.
 
@@ -301,3 +302,657 @@ Proof.
   - rewrite (steps_apply_oapply2 _ V) by reflexivity. rewrite E. reflexivity.
   - rewrite <- E at 1. apply steps_orient_parity2, V.
 Qed.
+
+(* ================================================================================================ *)
+(* 2. the normalised test value                                                                       *)
+
+Definition norm3 (v : list R) : R := sqrt (@dot3 R NumR v v).
+Definition norm2 (v : list R) : R := sqrt (@dot2 R NumR v v).
+Definition vdiv (v : list R) (c : R) : list R := map (fun x => x / c) v.
+(* du / np.linalg.norm(du) *)
+Definition unit3 (v : list R) : list R := vdiv v (norm3 v).
+Definition unit2 (v : list R) : list R := vdiv v (norm2 v).
+(* np.dot(dw, np.cross(du, dv)) resp. np.cross(du, dv) of the normalised vectors *)
+Definition rh_value3 (du dv dw : list R) : R := @triple3 R NumR (unit3 du) (unit3 dv) (unit3 dw).
+Definition rh_value2 (du dv : list R) : R := @cross2 R NumR (unit2 du) (unit2 dv).
+
+Lemma vc_vdiv v c i : @vc R NumR (vdiv v c) i = @vc R NumR v i / c.
+Proof.
+  unfold vc, vdiv. revert i. induction v as [|x v IH]; intros i.
+  - destruct i; cbn; unfold Rdiv; ring.
+  - destruct i; cbn [map nth]; [reflexivity|apply IH].
+Qed.
+Lemma dot3_vneg v : @dot3 R NumR (@vneg R NumR v) (@vneg R NumR v) = @dot3 R NumR v v.
+Proof. alg. ring. Qed.
+Lemma dot2_vneg v : @dot2 R NumR (@vneg R NumR v) (@vneg R NumR v) = @dot2 R NumR v v.
+Proof. alg. ring. Qed.
+Lemma dot3_nonneg v : 0 <= @dot3 R NumR v v.
+Proof. alg. nra. Qed.
+Lemma dot2_nonneg v : 0 <= @dot2 R NumR v v.
+Proof. alg. nra. Qed.
+Lemma vdiv_vneg v c : vdiv (@vneg R NumR v) c = @vneg R NumR (vdiv v c).
+Proof. unfold vdiv, vneg. rewrite !map_map. apply map_ext. intros x. unfold nneg. cbn. unfold Rdiv. ring. Qed.
+Lemma unit3_vneg v : unit3 (@vneg R NumR v) = @vneg R NumR (unit3 v).
+Proof. unfold unit3, norm3. rewrite dot3_vneg. apply vdiv_vneg. Qed.
+Lemma unit2_vneg v : unit2 (@vneg R NumR v) = @vneg R NumR (unit2 v).
+Proof. unfold unit2, norm2. rewrite dot2_vneg. apply vdiv_vneg. Qed.
+
+Lemma norm3_pos v : 0 < @dot3 R NumR v v -> 0 < norm3 v.
+Proof. intros Hp. apply sqrt_lt_R0, Hp. Qed.
+Lemma norm2_pos v : 0 < @dot2 R NumR v v -> 0 < norm2 v.
+Proof. intros Hp. apply sqrt_lt_R0, Hp. Qed.
+Lemma norm3_sq v : norm3 v * norm3 v = @dot3 R NumR v v.
+Proof. apply sqrt_sqrt, dot3_nonneg. Qed.
+Lemma norm2_sq v : norm2 v * norm2 v = @dot2 R NumR v v.
+Proof. apply sqrt_sqrt, dot2_nonneg. Qed.
+
+(* the value is the un-normalised product divided by the product of the lengths *)
+Theorem rh_value3_eq du dv dw : 0 < @dot3 R NumR du du -> 0 < @dot3 R NumR dv dv -> 0 < @dot3 R NumR dw dw ->
+  rh_value3 du dv dw = @triple3 R NumR du dv dw / (norm3 du * norm3 dv * norm3 dw).
+Proof.
+  intros Hu Hv Hw. apply norm3_pos in Hu, Hv, Hw. unfold rh_value3, unit3.
+  alg. rewrite !vc_vdiv. field. repeat split; lra.
+Qed.
+Theorem rh_value2_eq du dv : 0 < @dot2 R NumR du du -> 0 < @dot2 R NumR dv dv ->
+  rh_value2 du dv = @cross2 R NumR du dv / (norm2 du * norm2 dv).
+Proof.
+  intros Hu Hv. apply norm2_pos in Hu, Hv. unfold rh_value2, unit2.
+  alg. rewrite !vc_vdiv. field. split; lra.
+Qed.
+
+(* Hadamard: |det| <= product of the lengths *)
+Lemma hadamard_real a0 a1 a2 b0 b1 b2 c0 c1 c2 :
+  (c0 * (a1 * b2 - a2 * b1) + c1 * (a2 * b0 - a0 * b2) + c2 * (a0 * b1 - a1 * b0)) *
+  (c0 * (a1 * b2 - a2 * b1) + c1 * (a2 * b0 - a0 * b2) + c2 * (a0 * b1 - a1 * b0)) <=
+  (a0 * a0 + a1 * a1 + a2 * a2) * (b0 * b0 + b1 * b1 + b2 * b2) * (c0 * c0 + c1 * c1 + c2 * c2).
+Proof.
+  set (x0 := a1 * b2 - a2 * b1). set (x1 := a2 * b0 - a0 * b2). set (x2 := a0 * b1 - a1 * b0).
+  assert (CS : (c0 * x0 + c1 * x1 + c2 * x2) * (c0 * x0 + c1 * x1 + c2 * x2) <=
+               (c0 * c0 + c1 * c1 + c2 * c2) * (x0 * x0 + x1 * x1 + x2 * x2)).
+  { assert (E : (c0 * c0 + c1 * c1 + c2 * c2) * (x0 * x0 + x1 * x1 + x2 * x2) - (c0 * x0 + c1 * x1 + c2 * x2) * (c0 * x0 + c1 * x1 + c2 * x2)
+                = (c1 * x2 - c2 * x1) * (c1 * x2 - c2 * x1) + (c2 * x0 - c0 * x2) * (c2 * x0 - c0 * x2) + (c0 * x1 - c1 * x0) * (c0 * x1 - c1 * x0)) by ring.
+    pose proof (Rle_0_sqr (c1 * x2 - c2 * x1)). pose proof (Rle_0_sqr (c2 * x0 - c0 * x2)). pose proof (Rle_0_sqr (c0 * x1 - c1 * x0)).
+    unfold Rsqr in *. lra. }
+  assert (L : x0 * x0 + x1 * x1 + x2 * x2 =
+              (a0 * a0 + a1 * a1 + a2 * a2) * (b0 * b0 + b1 * b1 + b2 * b2) - (a0 * b0 + a1 * b1 + a2 * b2) * (a0 * b0 + a1 * b1 + a2 * b2))
+    by (unfold x0, x1, x2; ring).
+  pose proof (Rle_0_sqr (a0 * b0 + a1 * b1 + a2 * b2)) as Hd. unfold Rsqr in Hd.
+  assert (Hc : 0 <= c0 * c0 + c1 * c1 + c2 * c2) by nra.
+  set (C := c0 * c0 + c1 * c1 + c2 * c2) in *. set (X := x0 * x0 + x1 * x1 + x2 * x2) in *.
+  set (AB := (a0 * a0 + a1 * a1 + a2 * a2) * (b0 * b0 + b1 * b1 + b2 * b2)) in *.
+  set (D := (a0 * b0 + a1 * b1 + a2 * b2) * (a0 * b0 + a1 * b1 + a2 * b2)) in *.
+  assert (C * X <= C * AB) by (apply Rmult_le_compat_l; lra).
+  replace (AB * C) with (C * AB) by ring. lra.
+Qed.
+Theorem hadamard3 du dv dw :
+  @triple3 R NumR du dv dw * @triple3 R NumR du dv dw <= @dot3 R NumR du du * @dot3 R NumR dv dv * @dot3 R NumR dw dw.
+Proof. alg. apply hadamard_real. Qed.
+Theorem hadamard2 du dv :
+  @cross2 R NumR du dv * @cross2 R NumR du dv <= @dot2 R NumR du du * @dot2 R NumR dv dv.
+Proof.
+  alg. set (a0 := @vc R NumR du 0). set (a1 := @vc R NumR du 1). set (b0 := @vc R NumR dv 0). set (b1 := @vc R NumR dv 1).
+  pose proof (Rle_0_sqr (a0 * b0 + a1 * b1)) as Hd. unfold Rsqr in Hd.
+  assert (E : (a0 * a0 + a1 * a1) * (b0 * b0 + b1 * b1) - (a0 * b1 - a1 * b0) * (a0 * b1 - a1 * b0) = (a0 * b0 + a1 * b1) * (a0 * b0 + a1 * b1)) by ring.
+  lra.
+Qed.
+
+Lemma sq_le_abs t N : 0 < N -> t * t <= N * N -> - N <= t <= N.
+Proof. intros HN Hs. split; nra. Qed.
+
+(* the value of the test lies in [-1, 1] *)
+Theorem rh_value3_bound du dv dw : 0 < @dot3 R NumR du du -> 0 < @dot3 R NumR dv dv -> 0 < @dot3 R NumR dw dw ->
+  -1 <= rh_value3 du dv dw <= 1.
+Proof.
+  intros Hu Hv Hw. rewrite (rh_value3_eq du dv dw Hu Hv Hw).
+  pose proof (norm3_pos du Hu) as Pu. pose proof (norm3_pos dv Hv) as Pv. pose proof (norm3_pos dw Hw) as Pw.
+  set (N := norm3 du * norm3 dv * norm3 dw).
+  assert (HN : 0 < N) by (unfold N; repeat apply Rmult_lt_0_compat; assumption).
+  assert (HS : @triple3 R NumR du dv dw * @triple3 R NumR du dv dw <= N * N).
+  { replace (N * N) with ((norm3 du * norm3 du) * (norm3 dv * norm3 dv) * (norm3 dw * norm3 dw)) by (unfold N; ring).
+    rewrite !norm3_sq. apply hadamard3. }
+  destruct (sq_le_abs _ N HN HS) as [H1 H2]. split.
+  - apply Rle_div_r; [exact HN|lra].
+  - apply Rle_div_l; [exact HN|lra].
+Qed.
+Theorem rh_value2_bound du dv : 0 < @dot2 R NumR du du -> 0 < @dot2 R NumR dv dv ->
+  -1 <= rh_value2 du dv <= 1.
+Proof.
+  intros Hu Hv. rewrite (rh_value2_eq du dv Hu Hv).
+  pose proof (norm2_pos du Hu) as Pu. pose proof (norm2_pos dv Hv) as Pv.
+  set (N := norm2 du * norm2 dv).
+  assert (HN : 0 < N) by (unfold N; repeat apply Rmult_lt_0_compat; assumption).
+  assert (HS : @cross2 R NumR du dv * @cross2 R NumR du dv <= N * N).
+  { replace (N * N) with ((norm2 du * norm2 du) * (norm2 dv * norm2 dv)) by (unfold N; ring).
+    rewrite !norm2_sq. apply hadamard2. }
+  destruct (sq_le_abs _ N HN HS) as [H1 H2]. split.
+  - apply Rle_div_r; [exact HN|lra].
+  - apply Rle_div_l; [exact HN|lra].
+Qed.
+
+(* ---- the square-root-free executable form agrees with the normalised test ---- *)
+Theorem ge_scaled_spec tol t N2 : 0 < N2 -> (@ge_scaled R NumR tol t N2 = true <-> tol <= t / sqrt N2).
+Proof.
+  intros HN. pose proof (sqrt_lt_R0 N2 HN) as HS. pose proof (sqrt_sqrt N2 (Rlt_le _ _ HN)) as HQ.
+  set (N := sqrt N2) in *.
+  assert (EQ : tol <= t / N <-> tol * N <= t) by (symmetry; apply Rle_div_r; exact HS).
+  rewrite EQ. unfold ge_scaled. cbn [nltb nleb nmul n0 NumR].
+  destruct (Rltb_spec 0 N2) as [_|]; [|lra]. cbn [andb].
+  set (x := tol * N). assert (Ex : tol * tol * N2 = x * x) by (unfold x; rewrite <- HQ; ring). rewrite Ex.
+  destruct (Rleb_spec 0 tol) as [Ht|Ht].
+  - assert (0 <= x) by (unfold x; apply Rmult_le_pos; lra).
+    destruct (Rleb_spec 0 t) as [H0|H0], (Rleb_spec (x * x) (t * t)) as [H1|H1]; cbn [andb]; split; intros Hx; try discriminate; try reflexivity; nra.
+  - assert (x < 0) by (unfold x; nra).
+    destruct (Rleb_spec 0 t) as [H0|H0], (Rleb_spec (t * t) (x * x)) as [H1|H1]; cbn [orb]; split; intros Hx; try discriminate; try reflexivity; nra.
+Qed.
+
+Theorem right_hand3_spec tol du dv dw : 0 < @dot3 R NumR du du -> 0 < @dot3 R NumR dv dv -> 0 < @dot3 R NumR dw dw ->
+  (@right_hand3 R NumR tol du dv dw = true <-> tol <= rh_value3 du dv dw).
+Proof.
+  intros Hu Hv Hw. unfold right_hand3. cbn [nmul NumR].
+  assert (HN : 0 < @dot3 R NumR du du * @dot3 R NumR dv dv * @dot3 R NumR dw dw) by (repeat apply Rmult_lt_0_compat; assumption).
+  rewrite (ge_scaled_spec _ _ _ HN). rewrite (rh_value3_eq du dv dw Hu Hv Hw).
+  rewrite !sqrt_mult by (try apply Rmult_le_pos; apply dot3_nonneg). reflexivity.
+Qed.
+Theorem right_hand2_spec tol du dv : 0 < @dot2 R NumR du du -> 0 < @dot2 R NumR dv dv ->
+  (@right_hand2 R NumR tol du dv = true <-> tol <= rh_value2 du dv).
+Proof.
+  intros Hu Hv. unfold right_hand2. cbn [nmul NumR].
+  assert (HN : 0 < @dot2 R NumR du du * @dot2 R NumR dv dv) by (repeat apply Rmult_lt_0_compat; assumption).
+  rewrite (ge_scaled_spec _ _ _ HN). rewrite (rh_value2_eq du dv Hu Hv).
+  rewrite !sqrt_mult by (try apply Rmult_le_pos; apply dot2_nonneg). reflexivity.
+Qed.
+
+(* a zero derivative vector: the model's value is 0 (numpy: nan), and the test fails for every positive tolerance *)
+Lemma dot3_zero v : @dot3 R NumR v v = 0 -> @vc R NumR v 0 = 0 /\ @vc R NumR v 1 = 0 /\ @vc R NumR v 2 = 0.
+Proof. alg. intros Hz. repeat split; nra. Qed.
+Lemma dot2_zero v : @dot2 R NumR v v = 0 -> @vc R NumR v 0 = 0 /\ @vc R NumR v 1 = 0.
+Proof. alg. intros Hz. repeat split; nra. Qed.
+Lemma rh_value3_pos_nonzero du dv dw : 0 < rh_value3 du dv dw ->
+  0 < @dot3 R NumR du du /\ 0 < @dot3 R NumR dv dv /\ 0 < @dot3 R NumR dw dw.
+Proof.
+  intros Hp.
+  assert (K : forall v, 0 < @dot3 R NumR v v \/ (forall i, (i < 3)%nat -> @vc R NumR (unit3 v) i = 0)).
+  { intros v. destruct (Rle_lt_or_eq_dec _ _ (dot3_nonneg v)) as [Hl|He]; [left; exact Hl|right].
+    destruct (dot3_zero v (eq_sym He)) as (Z0 & Z1 & Z2). intros i Hi. unfold unit3. rewrite vc_vdiv.
+    destruct i as [|[|[|i]]]; [rewrite Z0|rewrite Z1|rewrite Z2|lia]; unfold Rdiv; ring. }
+  destruct (K du) as [Hu|Zu]; [|exfalso; revert Hp; unfold rh_value3; alg; rewrite !Zu by lia; lra].
+  destruct (K dv) as [Hv|Zv]; [|exfalso; revert Hp; unfold rh_value3; alg; rewrite !Zv by lia; lra].
+  destruct (K dw) as [Hw|Zw]; [|exfalso; revert Hp; unfold rh_value3; alg; rewrite !Zw by lia; lra].
+  repeat split; assumption.
+Qed.
+Lemma rh_value2_pos_nonzero du dv : 0 < rh_value2 du dv ->
+  0 < @dot2 R NumR du du /\ 0 < @dot2 R NumR dv dv.
+Proof.
+  intros Hp.
+  assert (K : forall v, 0 < @dot2 R NumR v v \/ (forall i, (i < 2)%nat -> @vc R NumR (unit2 v) i = 0)).
+  { intros v. destruct (Rle_lt_or_eq_dec _ _ (dot2_nonneg v)) as [Hl|He]; [left; exact Hl|right].
+    destruct (dot2_zero v (eq_sym He)) as (Z0 & Z1). intros i Hi. unfold unit2. rewrite vc_vdiv.
+    destruct i as [|[|i]]; [rewrite Z0|rewrite Z1|lia]; unfold Rdiv; ring. }
+  destruct (K du) as [Hu|Zu]; [|exfalso; revert Hp; unfold rh_value2; alg; rewrite !Zu by lia; lra].
+  destruct (K dv) as [Hv|Zv]; [|exfalso; revert Hp; unfold rh_value2; alg; rewrite !Zv by lia; lra].
+  split; assumption.
+Qed.
+
+(* ---- re-orientation of the derivative tuple: the value is multiplied by the sign ---- *)
+Theorem rh_value3_oapply o du dv dw : In o A3 ->
+  let ds := @oapply R NumR o [du; dv; dw] in
+  rh_value3 (nth 0 ds []) (nth 1 ds []) (nth 2 ds []) = @osign R NumR o * rh_value3 du dv dw.
+Proof.
+  intros Ho. enum Ho; cbv zeta; rewrite osign_R; cbn [oapply o_perm o_flip length seq map nth oparity perm_odd inv_head flips_odd fold_right xorb Nat.ltb Nat.leb];
+    unfold rh_value3; rewrite ?unit3_vneg; alg; ring.
+Qed.
+Theorem rh_value2_oapply o du dv : In o A2 ->
+  let ds := @oapply R NumR o [du; dv] in
+  rh_value2 (nth 0 ds []) (nth 1 ds []) = @osign R NumR o * rh_value2 du dv.
+Proof.
+  intros Ho. enum Ho; cbv zeta; rewrite osign_R; cbn [oapply o_perm o_flip length seq map nth oparity perm_odd inv_head flips_odd fold_right xorb Nat.ltb Nat.leb];
+    unfold rh_value2; rewrite ?unit2_vneg; alg; ring.
+Qed.
+Lemma N2_oapply3 o du dv dw : In o A3 ->
+  let ds := @oapply R NumR o [du; dv; dw] in
+  @dot3 R NumR (nth 0 ds []) (nth 0 ds []) * @dot3 R NumR (nth 1 ds []) (nth 1 ds []) * @dot3 R NumR (nth 2 ds []) (nth 2 ds []) =
+  @dot3 R NumR du du * @dot3 R NumR dv dv * @dot3 R NumR dw dw.
+Proof.
+  intros Ho. enum Ho; cbv zeta; cbn [oapply o_perm o_flip length seq map nth]; rewrite ?dot3_vneg; ring.
+Qed.
+Lemma N2_oapply2 o du dv : In o A2 ->
+  let ds := @oapply R NumR o [du; dv] in
+  @dot2 R NumR (nth 0 ds []) (nth 0 ds []) * @dot2 R NumR (nth 1 ds []) (nth 1 ds []) = @dot2 R NumR du du * @dot2 R NumR dv dv.
+Proof.
+  intros Ho. enum Ho; cbv zeta; cbn [oapply o_perm o_flip length seq map nth]; rewrite ?dot2_vneg; ring.
+Qed.
+
+(* MAIN (normalised value, as in is_right_hand): a patch that passes with a positive tolerance keeps its value
+   under every even re-orientation and gets the opposite value, hence fails, under every odd one *)
+Theorem reoriented_handedness3 tol o du dv dw : 0 < tol -> signed_perm 3 o ->
+  tol <= rh_value3 du dv dw ->
+  let ds := @oapply R NumR o [du; dv; dw] in
+  let val' := rh_value3 (nth 0 ds []) (nth 1 ds []) (nth 2 ds []) in
+  (oparity o = false -> val' = rh_value3 du dv dw /\ tol <= val') /\
+  (oparity o = true -> val' = - rh_value3 du dv dw /\ val' <= - tol /\ ~ tol <= val').
+Proof.
+  intros Ht Ho Hp ds val'. apply signed_perm_A3 in Ho.
+  pose proof (rh_value3_oapply o du dv dw Ho) as E. cbv zeta in E. fold ds in E. fold val' in E. rewrite osign_R in E.
+  split; intros Hpar; rewrite Hpar in E.
+  - split; [lra|lra].
+  - repeat split; lra.
+Qed.
+Theorem reoriented_handedness2 tol o du dv : 0 < tol -> signed_perm 2 o ->
+  tol <= rh_value2 du dv ->
+  let ds := @oapply R NumR o [du; dv] in
+  let val' := rh_value2 (nth 0 ds []) (nth 1 ds []) in
+  (oparity o = false -> val' = rh_value2 du dv /\ tol <= val') /\
+  (oparity o = true -> val' = - rh_value2 du dv /\ val' <= - tol /\ ~ tol <= val').
+Proof.
+  intros Ht Ho Hp ds val'. apply signed_perm_A2 in Ho.
+  pose proof (rh_value2_oapply o du dv Ho) as E. cbv zeta in E. fold ds in E. fold val' in E. rewrite osign_R in E.
+  split; intros Hpar; rewrite Hpar in E.
+  - split; [lra|lra].
+  - repeat split; lra.
+Qed.
+
+(* the same on the executable test (no square root involved) *)
+Lemma ge_scaled_neg tol t N2 : 0 < tol -> @ge_scaled R NumR tol t N2 = true -> @ge_scaled R NumR tol (- t) N2 = false.
+Proof.
+  intros Ht. unfold ge_scaled. cbn [nltb nleb nmul n0 NumR].
+  destruct (Rltb_spec 0 N2) as [HN|]; [|discriminate]. cbn [andb].
+  destruct (Rleb_spec 0 tol) as [_|]; [|lra].
+  destruct (Rleb_spec 0 t) as [H0|]; [|discriminate]. destruct (Rleb_spec (tol * tol * N2) (t * t)) as [H1|]; [|discriminate].
+  intros _. destruct (Rleb_spec 0 (- t)) as [H2|]; [|reflexivity]. exfalso.
+  assert (t = 0) by lra. subst t. assert (0 < tol * tol * N2) by (repeat apply Rmult_lt_0_compat; assumption). lra.
+Qed.
+Theorem right_hand3_reoriented tol o du dv dw : 0 < tol -> signed_perm 3 o ->
+  @right_hand3 R NumR tol du dv dw = true ->
+  let ds := @oapply R NumR o [du; dv; dw] in
+  @right_hand3 R NumR tol (nth 0 ds []) (nth 1 ds []) (nth 2 ds []) = negb (oparity o).
+Proof.
+  intros Ht Ho Hp ds. apply signed_perm_A3 in Ho. unfold right_hand3 in *. cbn [nmul NumR] in *.
+  pose proof (triple3_oapply o du dv dw Ho) as E. pose proof (N2_oapply3 o du dv dw Ho) as EN. cbv zeta in E, EN.
+  fold ds in E, EN. rewrite E, EN, osign_R.
+  destruct (oparity o); cbn [negb].
+  - replace (-1 * @triple3 R NumR du dv dw) with (- @triple3 R NumR du dv dw) by ring. apply ge_scaled_neg; assumption.
+  - rewrite Rmult_1_l. exact Hp.
+Qed.
+Theorem right_hand2_reoriented tol o du dv : 0 < tol -> signed_perm 2 o ->
+  @right_hand2 R NumR tol du dv = true ->
+  let ds := @oapply R NumR o [du; dv] in
+  @right_hand2 R NumR tol (nth 0 ds []) (nth 1 ds []) = negb (oparity o).
+Proof.
+  intros Ht Ho Hp ds. apply signed_perm_A2 in Ho. unfold right_hand2 in *. cbn [nmul NumR] in *.
+  pose proof (cross2_oapply o du dv Ho) as E. pose proof (N2_oapply2 o du dv Ho) as EN. cbv zeta in E, EN.
+  fold ds in E, EN. rewrite E, EN, osign_R.
+  destruct (oparity o); cbn [negb].
+  - replace (-1 * @cross2 R NumR du dv) with (- @cross2 R NumR du dv) by ring. apply ge_scaled_neg; assumption.
+  - rewrite Rmult_1_l. exact Hp.
+Qed.
+
+(* ================================================================================================ *)
+(* 3. chain rule: the first partial derivatives of a re-oriented map                                  *)
+(*    A patch is seen as a map from parameter tuples to points, P ts c = coordinate c of the point.   *)
+
+(* dv is the vector of the i-th first partial derivatives of P at ts (Coquelicot's is_derive, coordinate-wise) *)
+Definition is_partial (dim : nat) (P : list R -> nat -> R) (i : nat) (ts : list R) (dv : list R) : Prop :=
+  length dv = dim /\
+  forall c, (c < dim)%nat -> is_derive (fun t : R => P (upd ts i t) c) (nth i ts 0) (nth c dv 0).
+
+(* ts' is a tuple of the same length within delta of ts in every entry *)
+Definition near (delta : R) (ts ts' : list R) : Prop :=
+  length ts' = length ts /\ forall i, (i < length ts)%nat -> Rabs (nth i ts' 0 - nth i ts 0) < delta.
+
+Lemma near_upd delta ts i t : 0 < delta -> (i < length ts)%nat -> Rabs (t - nth i ts 0) < delta -> near delta ts (upd ts i t).
+Proof.
+  intros Hd Hi Ht. split; [apply upd_length|]. intros j Hj. destruct (Nat.eq_dec j i) as [->|Hne].
+  - rewrite upd_nth_same by exact Hi. exact Ht.
+  - rewrite upd_nth_other by exact Hne. replace (nth j ts 0 - nth j ts 0) with 0 by ring. rewrite Rabs_R0. exact Hd.
+Qed.
+
+Lemma h_upd_upd {A} (l : list A) i v w : upd (upd l i v) i w = upd l i w.
+Proof. revert i. induction l as [|x l IH]; intros i; [destruct i; reflexivity|]. destruct i; cbn [upd]; [reflexivity|]. f_equal. apply IH. Qed.
+Lemma h_upd_comm {A} (l : list A) i j v w : i <> j -> upd (upd l i v) j w = upd (upd l j w) i v.
+Proof.
+  revert i j. induction l as [|x l IH]; intros i j Hne; [destruct i, j; reflexivity|].
+  destruct i, j; cbn [upd]; try reflexivity; [congruence|]. f_equal. apply IH. congruence.
+Qed.
+Lemma h_swap_idx_upd (l : list R) d1 d2 i v : (d1 < length l)%nat -> (d2 < length l)%nat -> (i < length l)%nat ->
+  upd (swap_idx 0 l d1 d2) (tr d1 d2 i) v = swap_idx 0 (upd l i v) d1 d2.
+Proof.
+  intros H1 H2 Hi. apply (nth_ext _ _ 0 0).
+  - rewrite upd_length, !swap_idx_length, upd_length. reflexivity.
+  - intros k Hk. rewrite upd_length, swap_idx_length in Hk.
+    rewrite (swap_idx_nth 0 0 (upd l i v)) by (rewrite upd_length; assumption).
+    destruct (Nat.eq_dec k (tr d1 d2 i)) as [->|Hne].
+    + rewrite upd_nth_same by (rewrite swap_idx_length; apply tr_lt; assumption).
+      rewrite tr_invol. rewrite upd_nth_same by exact Hi. reflexivity.
+    + rewrite upd_nth_other by exact Hne. rewrite swap_idx_nth by assumption.
+      rewrite upd_nth_other; [reflexivity|]. intros E. apply Hne. rewrite <- E. symmetry. apply tr_invol.
+Qed.
+
+Lemma locally_ball (x delta : R) (Q : R -> Prop) : 0 < delta -> (forall t, Rabs (t - x) < delta -> Q t) -> locally x Q.
+Proof. intros Hd HQ. exists (mkposreal delta Hd). intros t Ht. apply HQ. exact Ht. Qed.
+
+(* swap: if Q is P with the parameters d1 and d2 exchanged (near ts), then the partial derivative of Q in direction
+   tr d1 d2 i at the exchanged point is the partial derivative of P in direction i at ts *)
+Theorem partial_swap dim (P Q : list R -> nat -> R) d1 d2 ts delta :
+  0 < delta -> (d1 < length ts)%nat -> (d2 < length ts)%nat ->
+  (forall ts', near delta ts ts' -> forall c, (c < dim)%nat -> Q (swap_idx 0 ts' d1 d2) c = P ts' c) ->
+  forall i dv, (i < length ts)%nat -> is_partial dim P i ts dv ->
+    is_partial dim Q (tr d1 d2 i) (swap_idx 0 ts d1 d2) dv.
+Proof.
+  intros Hd H1 H2 HQ i dv Hi [Ldv HP]. split; [exact Ldv|]. intros c Hc.
+  rewrite (swap_idx_nth 0 0 ts d1 d2 _ H1 H2), tr_invol.
+  apply (is_derive_ext_loc (fun t : R => P (upd ts i t) c)); [|apply HP; exact Hc].
+  apply (locally_ball _ delta); [exact Hd|]. intros t Ht.
+  rewrite (h_swap_idx_upd ts d1 d2 i t H1 H2 Hi). symmetry. apply HQ; [|exact Hc]. apply near_upd; assumption.
+Qed.
+
+(* reverse: if Q is P with the parameter d replaced by a + e - (parameter d) (near ts), then at the reflected point
+   the partial derivative of Q in direction d is minus that of P at ts, and the others are unchanged *)
+Theorem partial_reverse dim (P Q : list R -> nat -> R) d a e ts delta :
+  0 < delta -> (d < length ts)%nat ->
+  (forall ts', near delta ts ts' -> forall c, (c < dim)%nat -> Q (upd ts' d (a + e - nth d ts' 0)) c = P ts' c) ->
+  forall i dv, (i < length ts)%nat -> is_partial dim P i ts dv ->
+    is_partial dim Q i (upd ts d (a + e - nth d ts 0)) (if (i =? d)%nat then @vneg R NumR dv else dv).
+Proof.
+  intros Hd Hdl HQ i dv Hi [Ldv HP]. split.
+  - destruct (i =? d)%nat; [unfold vneg; rewrite map_length|]; exact Ldv.
+  - intros c Hc. destruct (Nat.eqb_spec i d) as [->|Hne].
+    + rewrite upd_nth_same by exact Hdl.
+      change (nth c (@vneg R NumR dv) 0) with (@vc R NumR (@vneg R NumR dv) c). rewrite vc_vneg. unfold vc. cbn [n0 NumR].
+      set (x0 := a + e - nth d ts 0).
+      apply (is_derive_ext_loc (fun t : R => (fun s : R => P (upd ts d s) c) (a + e - t))).
+      * apply (locally_ball _ delta); [exact Hd|]. intros t Ht. cbv beta.
+        rewrite h_upd_upd.
+        rewrite <- (HQ (upd ts d (a + e - t))); [|apply near_upd; [exact Hd|exact Hdl|]|exact Hc].
+        -- rewrite upd_nth_same by exact Hdl. rewrite h_upd_upd. f_equal. f_equal. ring.
+        -- unfold x0 in Ht. replace (a + e - t - nth d ts 0) with (- (t - (a + e - nth d ts 0))) by ring. rewrite Rabs_Ropp. exact Ht.
+      * replace (- nth c dv 0) with (scal (-1) (nth c dv 0)) by (unfold scal; simpl; unfold mult; simpl; ring).
+        apply (is_derive_comp (fun s : R => P (upd ts d s) c) (fun t : R => a + e - t)).
+        -- replace (a + e - x0) with (nth d ts 0) by (unfold x0; ring). apply HP. exact Hc.
+        -- auto_derive; [trivial|ring].
+    + rewrite upd_nth_other by exact Hne.
+      apply (is_derive_ext_loc (fun t : R => P (upd ts i t) c)); [|apply HP; exact Hc].
+      apply (locally_ball _ delta); [exact Hd|]. intros t Ht.
+      rewrite <- (HQ (upd ts i t)); [|apply near_upd; assumption|exact Hc].
+      rewrite upd_nth_other by (intros E; apply Hne; symmetry; exact E).
+      f_equal. apply h_upd_comm. exact Hne.
+Qed.
+
+(* the whole tuple of first partial derivatives *)
+Definition is_partials (dim : nat) (P : list R -> nat -> R) (ts : list R) (ds : list (list R)) : Prop :=
+  length ds = length ts /\ forall i, (i < length ts)%nat -> is_partial dim P i ts (nth i ds []).
+
+(* SplineObject.swap(d1, d2) at the level of maps: the tuple of partial derivatives is exchanged the same way *)
+Theorem partials_swap dim (P Q : list R -> nat -> R) d1 d2 ts delta ds :
+  0 < delta -> (d1 < length ts)%nat -> (d2 < length ts)%nat ->
+  (forall ts', near delta ts ts' -> forall c, (c < dim)%nat -> Q (swap_idx 0 ts' d1 d2) c = P ts' c) ->
+  is_partials dim P ts ds ->
+  is_partials dim Q (swap_idx 0 ts d1 d2) (@step_apply R NumR (RSwap d1 d2) ds).
+Proof.
+  intros Hd H1 H2 HQ [Lds HP]. cbn [step_apply]. split; [rewrite !swap_idx_length; exact Lds|].
+  intros j Hj. rewrite swap_idx_length in Hj.
+  rewrite (swap_idx_nth [] [] ds d1 d2 j) by (rewrite Lds; assumption).
+  rewrite <- (tr_invol d1 d2 j) at 1.
+  apply (partial_swap dim P Q d1 d2 ts delta Hd H1 H2 HQ); [apply tr_lt; assumption|].
+  apply HP. apply tr_lt; assumption.
+Qed.
+(* SplineObject.reverse(d) at the level of maps: entry d of the tuple is negated *)
+Theorem partials_reverse dim (P Q : list R -> nat -> R) d a e ts delta ds :
+  0 < delta -> (d < length ts)%nat ->
+  (forall ts', near delta ts ts' -> forall c, (c < dim)%nat -> Q (upd ts' d (a + e - nth d ts' 0)) c = P ts' c) ->
+  is_partials dim P ts ds ->
+  is_partials dim Q (upd ts d (a + e - nth d ts 0)) (@step_apply R NumR (RRev d) ds).
+Proof.
+  intros Hd Hdl HQ [Lds HP]. cbn [step_apply]. split; [rewrite !upd_length; exact Lds|].
+  intros j Hj. rewrite upd_length in Hj.
+  pose proof (partial_reverse dim P Q d a e ts delta Hd Hdl HQ j (nth j ds []) Hj (HP j Hj)) as K.
+  destruct (Nat.eqb_spec j d) as [->|Hne].
+  - rewrite upd_nth_same by (rewrite Lds; exact Hdl). exact K.
+  - rewrite upd_nth_other by exact Hne. exact K.
+Qed.
+
+(* ---- the evaluation map of a model object, and its parametric midpoint ---- *)
+Definition evc (tol : R) (o : obj R) (ts : list R) (c : nat) : R :=
+  match @obj_eval R NumR tol o ts with Ok p => nth c p 0 | Err _ => 0 end.
+
+Definition mid_of (b : basis R) : R := (@b_start R NumR b + @b_end R NumR b) / 2.
+Lemma obj_midpoint_R (o : obj R) : @obj_midpoint R NumR o = map mid_of (o_bases o).
+Proof. reflexivity. Qed.
+Lemma midpoint_length (o : obj R) : length (@obj_midpoint R NumR o) = length (o_bases o).
+Proof. rewrite obj_midpoint_R. apply map_length. Qed.
+Lemma midpoint_nth (o : obj R) i : (i < length (o_bases o))%nat ->
+  nth i (@obj_midpoint R NumR o) 0 = mid_of (nth i (o_bases o) dflt_basis).
+Proof.
+  intros Hi. rewrite obj_midpoint_R. rewrite (nth_indep _ 0 (mid_of dflt_basis)) by (rewrite map_length; exact Hi).
+  apply map_nth.
+Qed.
+
+Lemma near_weaken d1 d2 ts ts' : d1 <= d2 -> near d1 ts ts' -> near d2 ts ts'.
+Proof. intros Hle [L N]. split; [exact L|]. intros i Hi. specialize (N i Hi). lra. Qed.
+
+(* tuples within tol of the midpoint are in the domain *)
+Lemma near_mid_in_dom tol (o : obj R) ts' : 0 < tol -> wf_obj_R tol o -> near tol (@obj_midpoint R NumR o) ts' ->
+  forall i, (i < length (o_bases o))%nat -> in_dom tol (nth i (o_bases o) dflt_basis) (nth i ts' 0).
+Proof.
+  intros Htol Hwf [L N] i Hi. rewrite midpoint_length in N. specialize (N i Hi). rewrite (midpoint_nth o i Hi) in N.
+  destruct (bd_wf tol o Hwf i Hi) as (HK & Hp & Hlen & Hn & Hw).
+  apply in_dom_of_range; [exact Htol|repeat split; assumption|].
+  unfold mid_of in N. apply Rabs_def2 in N. lra.
+Qed.
+
+(* SWAP on model objects: the midpoint of the swapped object is the swapped midpoint, and the partial derivatives of
+   its evaluation map there are those of the original, exchanged *)
+Theorem swap_midpoint_partials tol (o : obj R) d1 d2 ds :
+  0 < tol -> wf_obj_R tol o -> d1 <> d2 -> (d1 < length (o_bases o))%nat -> (d2 < length (o_bases o))%nat ->
+  let o' := @obj_swap R NumR o d1 d2 in
+  @obj_midpoint R NumR o' = swap_idx 0 (@obj_midpoint R NumR o) d1 d2 /\
+  (is_partials (o_dim o) (evc tol o) (@obj_midpoint R NumR o) ds ->
+   is_partials (o_dim o) (evc tol o') (@obj_midpoint R NumR o') (@step_apply R NumR (RSwap d1 d2) ds)).
+Proof.
+  intros Htol Hwf Hne H1 H2 o'.
+  assert (EM : @obj_midpoint R NumR o' = swap_idx 0 (@obj_midpoint R NumR o) d1 d2).
+  { rewrite !obj_midpoint_R. unfold o'. rewrite sw_obj by assumption. cbn [o_bases]. rewrite swap_idx_map.
+    apply swap_idx_dflt; rewrite map_length; assumption. }
+  split; [exact EM|]. intros HP. rewrite EM.
+  apply (partials_swap (o_dim o) (evc tol o) (evc tol o') d1 d2 _ tol ds Htol); try (rewrite midpoint_length; assumption); [|exact HP].
+  intros ts' Hn c Hc. unfold evc, o'.
+  pose proof Hn as [L _]. rewrite midpoint_length in L.
+  rewrite (swap_eval_idx tol o d1 d2 ts' Htol Hwf Hne H1 H2) by (try (rewrite L; assumption); apply near_mid_in_dom; assumption).
+  reflexivity.
+Qed.
+
+(* knots strictly farther than tol from m stay at least tol away from every t close enough to m *)
+Lemma knots_clear_near (l : list R) a e tol m :
+  (forall v, In v l -> v = a \/ v = e \/ tol < Rabs (v - m)) ->
+  exists delta, 0 < delta /\ forall t, Rabs (t - m) < delta -> forall v, In v l -> tol <= Rabs (v - t) \/ v = a \/ v = e.
+Proof.
+  induction l as [|x l IH]; intros H.
+  - exists 1. split; [lra|]. intros t _ v [].
+  - destruct IH as (d0 & Hd0 & K0); [intros v Hv; apply H; right; exact Hv|].
+    destruct (H x (or_introl eq_refl)) as [Ea|[Ee|Hx]].
+    + exists d0. split; [exact Hd0|]. intros t Ht v [<-|Hv]; [right; left; exact Ea|apply K0; assumption].
+    + exists d0. split; [exact Hd0|]. intros t Ht v [<-|Hv]; [right; right; exact Ee|apply K0; assumption].
+    + exists (Rmin d0 (Rabs (x - m) - tol)). split; [apply Rmin_glb_lt; lra|].
+      intros t Ht v [<-|Hv].
+      * left. pose proof (Rmin_r d0 (Rabs (x - m) - tol)).
+        pose proof (Rabs_triang_inv (x - m) (t - m)) as Tr. replace (x - m - (t - m)) with (x - t) in Tr by ring. lra.
+      * apply K0; [|exact Hv]. pose proof (Rmin_l d0 (Rabs (x - m) - tol)). lra.
+Qed.
+
+(* REVERSE on model objects (non-periodic direction d whose interior knots are farther than tol from the midpoint):
+   the midpoint is unchanged and entry d of the tuple of partial derivatives of the evaluation map is negated *)
+Theorem reverse_midpoint_partials tol (o : obj R) d ds :
+  0 < tol -> wf_obj_R tol o -> (d < length (o_bases o))%nat ->
+  let bd := nth d (o_bases o) dflt_basis in
+  b_per1 bd = 0%nat ->
+  (forall v, In v (b_knots bd) -> v = @b_start R NumR bd \/ v = @b_end R NumR bd \/ tol < Rabs (v - mid_of bd)) ->
+  let o' := @obj_reverse R NumR o d in
+  @obj_midpoint R NumR o' = @obj_midpoint R NumR o /\
+  (is_partials (o_dim o) (evc tol o) (@obj_midpoint R NumR o) ds ->
+   is_partials (o_dim o) (evc tol o') (@obj_midpoint R NumR o') (@step_apply R NumR (RRev d) ds)).
+Proof.
+  intros Htol Hwf Hd bd Hper Hkn o'.
+  set (a := @b_start R NumR bd) in *. set (e := @b_end R NumR bd) in *.
+  assert (EM : @obj_midpoint R NumR o' = @obj_midpoint R NumR o).
+  { rewrite !obj_midpoint_R. unfold o'. rewrite (rv_obj tol Htol o Hwf d Hd Hper). cbn [o_bases]. rewrite upd_map'.
+    unfold mid_of at 2. rewrite (rvk_start tol o Hwf d Hd), (rvk_end tol o Hwf d Hd).
+    change ((@b_start R NumR (nth d (o_bases o) dflt_basis) + @b_end R NumR (nth d (o_bases o) dflt_basis)) / 2) with (mid_of (nth d (o_bases o) dflt_basis)).
+    rewrite <- (map_nth mid_of (o_bases o) dflt_basis d). apply upd_same_id. }
+  split; [exact EM|]. intros HP. rewrite EM.
+  set (m := @obj_midpoint R NumR o) in *.
+  assert (Lm : length m = length (o_bases o)) by apply midpoint_length.
+  assert (Emd : nth d m 0 = mid_of bd) by (apply midpoint_nth; exact Hd).
+  destruct (knots_clear_near (b_knots bd) a e tol (mid_of bd) Hkn) as (d0 & Hd0 & K0).
+  assert (Eself : upd m d (a + e - nth d m 0) = m).
+  { replace (a + e - nth d m 0) with (nth d m 0) by (rewrite Emd; unfold mid_of; fold a e; field). apply upd_same_id. }
+  rewrite <- Eself at 1.
+  apply (partials_reverse (o_dim o) (evc tol o) (evc tol o') d a e m (Rmin tol d0) ds); [apply Rmin_glb_lt; assumption|rewrite Lm; exact Hd| |exact HP].
+  intros ts' Hn c Hc. unfold evc, o'.
+  pose proof Hn as [L N]. rewrite Lm in L. unfold a, e, bd in *.
+  rewrite (reverse_eval_clear tol o d ts' Htol Hwf Hd) ; [reflexivity|rewrite L; exact Hd|exact Hper| |].
+  - apply near_mid_in_dom; [exact Htol|exact Hwf|]. apply (near_weaken (Rmin tol d0)); [apply Rmin_l|exact Hn].
+  - apply K0. rewrite <- Emd. specialize (N d ltac:(rewrite Lm; exact Hd)). pose proof (Rmin_r tol d0). lra.
+Qed.
+
+(* ---- one re-orientation step on a model object flips the test ---- *)
+Definition obj_step (o : obj R) (s : rstep) : obj R :=
+  match s with RSwap d1 d2 => @obj_swap R NumR o d1 d2 | RRev d => @obj_reverse R NumR o d end.
+(* what the end-to-end theorem of reverse needs: a non-periodic direction whose knots other than the two domain ends
+   are farther than the knot tolerance from the midpoint (no requirement for a swap) *)
+Definition step_ok (tol : R) (o : obj R) (s : rstep) : Prop :=
+  match s with
+  | RSwap _ _ => True
+  | RRev d => let bd := nth d (o_bases o) dflt_basis in
+              b_per1 bd = 0%nat /\
+              forall v, In v (b_knots bd) -> v = @b_start R NumR bd \/ v = @b_end R NumR bd \/ tol < Rabs (v - mid_of bd)
+  end.
+
+Theorem step_midpoint_partials tol (o : obj R) s ds :
+  0 < tol -> wf_obj_R tol o -> valid_step (length (o_bases o)) s -> step_ok tol o s ->
+  is_partials (o_dim o) (evc tol o) (@obj_midpoint R NumR o) ds ->
+  is_partials (o_dim o) (evc tol (obj_step o s)) (@obj_midpoint R NumR (obj_step o s)) (@step_apply R NumR s ds).
+Proof.
+  intros Htol Hwf Hv Hok HP. destruct s as [d1 d2|d]; cbn [valid_step step_ok obj_step] in *.
+  - destruct Hv as (Hne & H1 & H2). exact (proj2 (swap_midpoint_partials tol o d1 d2 ds Htol Hwf Hne H1 H2) HP).
+  - destruct Hok as [Hper Hkn]. exact (proj2 (reverse_midpoint_partials tol o d ds Htol Hwf Hv Hper Hkn) HP).
+Qed.
+
+(* volume in 3-D: if the partial derivatives of the evaluation map at the midpoint pass the test with margin htol > 0,
+   then after one swap or one reverse the partial derivatives of the new evaluation map at the new midpoint give the
+   opposite value, so the test fails *)
+Theorem step_flips_handedness3 tol htol (o : obj R) s du dv dw :
+  0 < tol -> 0 < htol -> wf_obj_R tol o -> length (o_bases o) = 3%nat -> o_dim o = 3%nat ->
+  valid_step 3 s -> step_ok tol o s ->
+  is_partials 3 (evc tol o) (@obj_midpoint R NumR o) [du; dv; dw] ->
+  htol <= rh_value3 du dv dw ->
+  let o' := obj_step o s in
+  let ds' := @step_apply R NumR s [du; dv; dw] in
+  is_partials 3 (evc tol o') (@obj_midpoint R NumR o') ds' /\
+  rh_value3 (nth 0 ds' []) (nth 1 ds' []) (nth 2 ds' []) = - rh_value3 du dv dw /\
+  ~ htol <= rh_value3 (nth 0 ds' []) (nth 1 ds' []) (nth 2 ds' []).
+Proof.
+  intros Htol Hh Hwf Hn Hdim Hv Hok HP Hpass o' ds'.
+  split; [rewrite <- Hdim; apply step_midpoint_partials; try assumption; [rewrite Hn; exact Hv|rewrite Hdim; exact HP]|].
+  destruct (step_A3 s Hv) as (S1 & S2 & S3). unfold ds'. rewrite S3.
+  destruct (reoriented_handedness3 htol (step_orient 3 s) du dv dw Hh (A3_signed_perm _ S1) Hpass) as [_ K].
+  destruct (K S2) as (E1 & _ & E3). split; assumption.
+Qed.
+(* surface in 2-D *)
+Theorem step_flips_handedness2 tol htol (o : obj R) s du dv :
+  0 < tol -> 0 < htol -> wf_obj_R tol o -> length (o_bases o) = 2%nat -> o_dim o = 2%nat ->
+  valid_step 2 s -> step_ok tol o s ->
+  is_partials 2 (evc tol o) (@obj_midpoint R NumR o) [du; dv] ->
+  htol <= rh_value2 du dv ->
+  let o' := obj_step o s in
+  let ds' := @step_apply R NumR s [du; dv] in
+  is_partials 2 (evc tol o') (@obj_midpoint R NumR o') ds' /\
+  rh_value2 (nth 0 ds' []) (nth 1 ds' []) = - rh_value2 du dv /\
+  ~ htol <= rh_value2 (nth 0 ds' []) (nth 1 ds' []).
+Proof.
+  intros Htol Hh Hwf Hn Hdim Hv Hok HP Hpass o' ds'.
+  split; [rewrite <- Hdim; apply step_midpoint_partials; try assumption; [rewrite Hn; exact Hv|rewrite Hdim; exact HP]|].
+  destruct (step_A2 s Hv) as (S1 & S2 & S3). unfold ds'. rewrite S3.
+  destruct (reoriented_handedness2 htol (step_orient 2 s) du dv Hh (A2_signed_perm _ S1) Hpass) as [_ K].
+  destruct (K S2) as (E1 & _ & E3). split; assumption.
+Qed.
+
+(* ================================================================================================ *)
+(* 4. examples: the unit cube (du, dv, dw = e1, e2, e3) and the unit square                           *)
+
+Definition e1 : list R := [1; 0; 0].  Definition e2 : list R := [0; 1; 0].  Definition e3 : list R := [0; 0; 1].
+Lemma dot3_e1 : @dot3 R NumR e1 e1 = 1. Proof. unfold e1. alg. ring. Qed.
+Lemma dot3_e2 : @dot3 R NumR e2 e2 = 1. Proof. unfold e2. alg. ring. Qed.
+Lemma dot3_e3 : @dot3 R NumR e3 e3 = 1. Proof. unfold e3. alg. ring. Qed.
+Example cube_value : rh_value3 e1 e2 e3 = 1.
+Proof.
+  rewrite rh_value3_eq by (rewrite ?dot3_e1, ?dot3_e2, ?dot3_e3; lra).
+  unfold norm3. rewrite dot3_e1, dot3_e2, dot3_e3, sqrt_1. unfold e1, e2, e3. alg. field.
+Qed.
+(* the cube passes the default test (tol = 1e-3); each of its 24 even re-orientations passes with the same value 1, each
+   of its 24 odd ones has value -1 and fails *)
+Example cube_reorientations o : signed_perm 3 o ->
+  let ds := @oapply R NumR o [e1; e2; e3] in
+  let val' := rh_value3 (nth 0 ds []) (nth 1 ds []) (nth 2 ds []) in
+  (oparity o = false -> val' = 1 /\ 1 / 1000 <= val') /\
+  (oparity o = true -> val' = -1 /\ ~ 1 / 1000 <= val').
+Proof.
+  intros Ho ds val'.
+  destruct (reoriented_handedness3 (1 / 1000) o e1 e2 e3 ltac:(lra) Ho ltac:(rewrite cube_value; lra)) as [K0 K1].
+  fold ds in K0, K1. fold val' in K0, K1. rewrite cube_value in K0, K1. split; intros Hp.
+  - destruct (K0 Hp). split; assumption.
+  - destruct (K1 Hp) as (E & _ & N). split; assumption.
+Qed.
+Example cube_counts :
+  length (filter (fun o => negb (oparity o)) A3) = 24%nat /\ length (filter oparity A3) = 24%nat /\
+  length (filter (fun o => negb (oparity o)) A2) = 4%nat /\ length (filter oparity A2) = 4%nat.
+Proof. vm_compute. repeat split; reflexivity. Qed.
+Example cube_executable_R o : signed_perm 3 o ->
+  @right_hand3 R NumR (1 / 1000) e1 e2 e3 = true /\
+  let ds := @oapply R NumR o [e1; e2; e3] in
+  @right_hand3 R NumR (1 / 1000) (nth 0 ds []) (nth 1 ds []) (nth 2 ds []) = negb (oparity o).
+Proof.
+  intros Ho.
+  assert (H0 : @right_hand3 R NumR (1 / 1000) e1 e2 e3 = true).
+  { apply right_hand3_spec; rewrite ?dot3_e1, ?dot3_e2, ?dot3_e3, ?cube_value; lra. }
+  split; [exact H0|]. apply right_hand3_reoriented; [lra|exact Ho|exact H0].
+Qed.
+
+(* the same by computation on the executable instance Q: the test accepts exactly the even re-orientations *)
+From Coq Require Import QArith.
+Open Scope R_scope.
+Definition q1 : list Q := [1%Q; 0%Q; 0%Q].  Definition q2 : list Q := [0%Q; 1%Q; 0%Q].  Definition q3 : list Q := [0%Q; 0%Q; 1%Q].
+Example cube_executable_Q :
+  @right_hand3 Q NumQ (1 # 1000)%Q q1 q2 q3 = true /\
+  forallb (fun o => let ds := @oapply Q NumQ o [q1; q2; q3] in
+                    Bool.eqb (@right_hand3 Q NumQ (1 # 1000)%Q (nth 0 ds []) (nth 1 ds []) (nth 2 ds [])) (negb (oparity o))) A3 = true /\
+  forallb (fun o => let ds := @oapply Q NumQ o [[1%Q; 0%Q]; [0%Q; 1%Q]] in
+                    Bool.eqb (@right_hand2 Q NumQ (1 # 1000)%Q (nth 0 ds []) (nth 1 ds [])) (negb (oparity o))) A2 = true.
+Proof. vm_compute. repeat split; reflexivity. Qed.
+(* a sheared, scaled cell (not orthonormal): triple product 3, value 3/sqrt(218) ~ 0.203; on Q the test accepts it at
+   1e-3, rejects it at 1/2, and accepts exactly the even re-orientations at 1e-3 *)
+Example sheared_executable_Q :
+  let du := [2%Q; 0%Q; 0%Q] in let dv := [1%Q; 1%Q; 0%Q] in let dw := [3%Q; 4%Q; (3 # 2)%Q] in
+  @right_hand3 Q NumQ (1 # 1000)%Q du dv dw = true /\ @right_hand3 Q NumQ (1 # 2)%Q du dv dw = false /\
+  forallb (fun o => let ds := @oapply Q NumQ o [du; dv; dw] in
+                    Bool.eqb (@right_hand3 Q NumQ (1 # 1000)%Q (nth 0 ds []) (nth 1 ds []) (nth 2 ds [])) (negb (oparity o))) A3 = true.
+Proof. vm_compute. repeat split; reflexivity. Qed.
+
+Print Assumptions triple3_oapply.
+Print Assumptions oparity_compose.
+Print Assumptions oapply_compose.
+Print Assumptions steps_orient_parity3.
+Print Assumptions steps_apply_oapply3.
+Print Assumptions reorient_steps_apply3.
+Print Assumptions rh_value3_eq.
+Print Assumptions rh_value3_bound.
+Print Assumptions right_hand3_spec.
+Print Assumptions reoriented_handedness3.
+Print Assumptions reoriented_handedness2.
+Print Assumptions right_hand3_reoriented.
+Print Assumptions partial_swap.
+Print Assumptions partial_reverse.
+Print Assumptions swap_midpoint_partials.
+Print Assumptions reverse_midpoint_partials.
+Print Assumptions step_flips_handedness3.
+Print Assumptions step_flips_handedness2.
+Print Assumptions cube_reorientations.
+Print Assumptions cube_executable_Q.
